@@ -539,11 +539,17 @@ class OrDefault:
         return await next_directive(directive_args["v"] if value is None else value, ctx, info)
 
 
+    async def on_post_input_coercion(self, directive_args, next_directive, parent_node, value, ctx):
+        harness.scenario_of(ctx).events.append(("orDefault-in", repr(value)))
+        return await next_directive(parent_node, directive_args["v"] if value is None else value, ctx)
+
+
 NULLS_SDL = """
 directive @orDefault(v: String!) on SCALAR | ENUM | OBJECT
 scalar Lbl @orDefault(v: "n/a")
 enum Mood @orDefault(v: "CALM") { CALM WILD }
-type Query { lbl: Lbl! opt: Lbl lbls: [Lbl!] mood: Mood! moods: [Mood!]! }
+input Box { tok: Lbl toks: [Lbl] mood: Mood }
+type Query { lbl: Lbl! opt: Lbl lbls: [Lbl!] mood: Mood! moods: [Mood!]! echo(b: Box): String }
 """
 
 
@@ -558,6 +564,11 @@ def run_null_replacing(out):
                 return list(v) if isinstance(v, list) else v
             return r
         Resolver("Query." + f, schema_name=name)(mk(v))
+    @Resolver("Query.echo", schema_name=name)
+    async def r_echo(parent, args, ctx, info):
+        b = args.get("b") or {}
+        return repr({k: b[k] for k in sorted(b)})
+
     eng = harness.run(create_engine(NULLS_SDL, schema_name=name))
     want = {"lbl": "out:n/a", "opt": "out:n/a", "lbls": ["out:a", "out:n/a", "out:b"], "mood": "CALM", "moods": ["CALM", "WILD"]}
     calls = {"lbl": ["None"], "opt": ["None"], "lbls": ["'a'", "None", "'b'"], "mood": ["None"], "moods": ["None", "'WILD'"]}
@@ -574,6 +585,22 @@ def run_null_replacing(out):
                                % (f, resp, saw, want[f], calls[f]),
                     "replay": {"typechange": True}})
                 break
+    # input side: an explicit null reaches the type-level input hooks whether it is written as a literal or carried by a variable, and
+    # what they return is what the resolver sees
+    want_in = "{'mood': 'CALM', 'tok': 'n/a', 'toks': ['n/a', 'T:a']}"
+    forms = [("literal", "{ echo(b: {tok: null, toks: [null, \"a\"], mood: null}) }", None),
+             ("variable", "query($b: Box) { echo(b: $b) }", {"b": {"tok": None, "toks": [None, "a"], "mood": None}}),
+             ("nested-variables", "query($t: Lbl, $m: Mood) { echo(b: {tok: $t, toks: [$t, \"a\"], mood: $m}) }", {"t": None, "m": None})]
+    for way, text, vs in forms:
+        scn = Scenario(root={})
+        resp = harness.execute(eng, text, scn, variables=vs)
+        out["counts"]["evaluations"] += 1
+        got = (resp.get("data") or {}).get("echo")
+        if resp.get("errors") or got != want_in:
+            out["violations"].append({
+                "signature": "stage-did-not-see-what-the-previous-hook-returned|null-replaced-by-type-input-hook|%s" % way,
+                "summary": "type-level input hook replacing null [%s]: %s variables=%r -> %r, expected the resolver to see %s" % (way, text, vs, resp, want_in),
+                "replay": {"typechange": True}})
     harness.forget(name)
 
 
